@@ -571,6 +571,29 @@ impl World {
         ok
     }
 
+    /// attempt a request on a copy of the state: judged like an executed request, the history
+    /// does not advance; returns the storage the request would have left when it is accepted
+    pub fn do_try(&mut self, sender: &str, funds: &[Coin], msg: &ExecuteMsg) -> Option<Raw> {
+        self.env_line(sender, &Self::exec_addrs(msg));
+        self.line(&format!("CT {} {} {}", wire::enc(sender), wire::coins(funds), wire::exec_msg(msg)));
+        let m = msg.clone();
+        let s = sender.to_string();
+        let f = funds.to_vec();
+        let (out, b, a) = self.atomic(|d| execute(d.as_mut(), mock_env(), mock_info(&s, &f), m));
+        let kind = Self::kind_of(msg).to_string();
+        self.finish(&kind, &out, &b, &a);
+        let ok = matches!(out, Outcome::Ok(_));
+        if let (true, Outcome::Ok(r)) = (ok, &out) {
+            self.note_branches(msg, r);
+        }
+        self.restore(&b);
+        if ok {
+            Some(a)
+        } else {
+            None
+        }
+    }
+
     fn note_branches(&mut self, msg: &ExecuteMsg, r: &Response) {
         let get = |k: &str| r.attributes.iter().find(|a| a.key == k).map(|a| a.value.clone());
         match msg {
@@ -652,6 +675,9 @@ impl World {
             }
             Step::Probe { sender, funds, msg } => {
                 self.do_exec(sender, funds, msg, true);
+            }
+            Step::Try { sender, funds, msg } => {
+                self.do_try(sender, funds, msg);
             }
             Step::Migrate { msg } => {
                 self.do_migrate(msg);
